@@ -21,10 +21,22 @@ type Pool struct {
 	New   func() any
 	mu    sync.Mutex
 	items []any
+	gen   uint64
+}
+
+// sync: a pool kept in a package-level variable would carry items from one explored execution into the next
+// (executions must all start from the same state); every pool is therefore emptied when it is first used in
+// a new execution, which sync.Pool's contract allows at any time.
+func (p *Pool) sync() {
+	if g := vsched.ExecutionGen(); g != p.gen {
+		p.gen = g
+		p.items = nil
+	}
 }
 
 func (p *Pool) Get() any {
 	p.mu.Lock()
+	p.sync()
 	if n := len(p.items); n > 0 {
 		x := p.items[n-1]
 		p.items = p.items[:n-1]
@@ -43,6 +55,7 @@ func (p *Pool) Put(x any) {
 		return
 	}
 	p.mu.Lock()
+	p.sync()
 	p.items = append(p.items, x)
 	p.mu.Unlock()
 }
